@@ -20,7 +20,15 @@ INST = {"op": "instantiate", "binds": {"mem": 0, "table": 0, "globals": []}}
 DEFRE = re.compile(r"^(?:static )?(?:void|U32|U64|F32|F64) (\w*?f\d+)\((.*)\) ?\{$")
 
 
-def make_module(rng, nf):
+SIZED = [55, 56, 57, 63, 64, 65, 119, 120, 127, 128, 129, 192, 256]
+
+
+def body_size(f):
+    e = wasm_encode.Enc()
+    return len(wasm_encode.vec(e, [e.u(n, "l") + [wasm_encode.VT[t]] for t, n in f.get("locals", [])], "l") + wasm_encode.enc_expr(e, f["body"], "b"))
+
+
+def make_module(rng, nf, sized=False):
     """Functions with memory access, memory.init, calls, a host import, duplicate bodies."""
     types = [{"p": ["i32"], "r": ["i32"]}, {"p": ["i32"], "r": []}]
     funcs = []
@@ -43,6 +51,14 @@ def make_module(rng, nf):
             body = [["local.get", 0], ["i32.const", b32(7)], ["i32.xor"], ["end"]]      # identical bodies for every kind-4 function
         funcs.append({"type": 0, "locals": [[], [["i32", 1]], [["i32", 1], ["i64", 2]], [["f64", 1], ["i32", 2], ["i64", 1]]][(k // 5 + kind) % 4] if kind not in (1, 4)
                       else [["i32", 1]], "body": body})
+    # bodies of exactly the sizes at which a block-wise hash pads or starts a new block (SHA-1: 55/56, multiples of 64);
+    # the reference differs from them in the last opcode only (ref_module), so the final block decides
+    for size in (SIZED if sized else []):
+        body = [["local.get", 0], ["i32.const", b32(size)], ["i32.add"], ["end"]]
+        while body_size({"locals": [["i32", 1]], "body": body}) < size:
+            body.insert(0, ["nop"])
+        funcs.append({"type": 0, "locals": [["i32", 1]], "body": body, "sized": True})
+    nf = len(funcs)
     m = {"types": types, "imports": [{"mod": "env", "name": "note", "kind": "func", "type": 1, "ret": []}], "funcs": funcs,
          "memory": {"min": 1, "max": 2},
          # active and passive segments interleaved (offsets into an external blob must count every segment)
@@ -70,7 +86,7 @@ def ref_module(m, rng, share):
     for k, f in enumerate(r["funcs"]):
         if k in share:
             continue
-        how = (k + salt) % 4
+        how = 1 if f.get("sized") else (k + salt) % 4
         body = [list(i) for i in f["body"]]
         if how == 1 and body[-2][0] in TAIL_SWAP:
             body[-2] = [TAIL_SWAP[body[-2][0]]]
@@ -203,8 +219,11 @@ def main():
         scen, jobs = [], []
         for mi in range(nmods):
             nfm = rng.choice([3, 6, 11])
-            m = make_module(rng, nfm)
+            m = make_module(rng, nfm, sized=mi == 0)          # the first module also has the hash-block-sized bodies
+            nfm = len(m["funcs"])
             share = set(rng.sample(range(nfm), rng.randint(0, nfm)))
+            if mi == 0:
+                share -= {k_ for k_, f_ in enumerate(m["funcs"]) if f_.get("sized")}       # those all differ from the reference, in their tail
             rm = ref_module(m, rng, share)
             hm, hr = body_hashes(m), body_hashes(rm)
             pool_ = list(hr)
@@ -334,6 +353,15 @@ def main():
         exec(compile(src3, "c03", "exec"), ns3)
         items += ns3["directed"](random.Random(SEED), "quick")
         items += wasmgen.programs("control", 16 if tier == "quick" else 200, SEED, args_per_prog=3)
+        # deep nesting: indentation and label bookkeeping of the pretty printer
+        for dpt in (33, 70):
+            kinds = [("block", "i32") if d % 3 == 0 else ("loop", "") if d % 3 == 1 else ("block", "") for d in range(dpt)]
+            b_ = [[k[0], k[1]] for k in kinds] + [["i32.const", b32(5)], ["local.get", 0], ["br_if", dpt - 1], ["drop"]]
+            for k in reversed(kinds):
+                b_ += ([["i32.const", b32(1)], ["end"], ["drop"]] if k[1] == "i32" else [["end"]])
+            items.append({"id": "deep%d" % dpt, "module": {"types": [{"p": ["i32"], "r": ["i32"]}], "funcs": [{"type": 0, "locals": [], "body": b_ + [["i32.const", b32(dpt)], ["end"]]}],
+                                                           "exports": [{"name": "deep", "kind": "func", "idx": 0}]},
+                          "script": [INST] + [{"op": "call", "inst": 1, "export": "deep", "args": [{"t": "i32", "b": b32(x)}]} for x in (0, 1)]})
         builds = []
         for o in [{"t": 1, "f": 0, "p": False, "g": False, "m": False, "d": "arrays", "r": False}, {"t": 3, "f": 1, "p": True, "g": True, "m": True, "d": "arrays", "r": False},
                   {"t": 2, "f": 2, "p": False, "g": False, "m": False, "d": "arrays", "r": False}, {"t": 64, "f": 4, "p": True, "g": False, "m": True, "d": "arrays", "r": False},
